@@ -238,6 +238,60 @@ func c14Scenarios() []c14Scenario {
 	}
 	out = append(out, stateVsClose("S10-auth-vs-stop", func(s *redis.Server) error { return s.Stop() }, true),
 		stateVsClose("S11-auth-vs-restart", func(s *redis.Server) error { return s.Restart() }, false))
+	// S18/S19: connected clients CONFIG SET the parameters that Start itself reads (TLS files
+	// and port, to the values they already have, so nothing changes) exactly while Restart /
+	// Stop+Start reopens the listeners from the configuration
+	startParamsVsReopen := func(name string, call func(s *redis.Server) error) c14Scenario {
+		return c14Scenario{Name: name, New: func() *sched.Run {
+			var outcomes []string
+			return &sched.Run{
+				Body: func() {
+					kit, err := getKit()
+					if err != nil {
+						return
+					}
+					s := srv.NewServer(srv.NewDouble())
+					s.SetTLSPort(6380)
+					s.SetTLSCertFile(kit.ServerCert)
+					s.SetTLSKeyFile(kit.ServerKey)
+					s.SetTLSCaCertFile(kit.CAFile)
+					if s.Start() != nil {
+						return
+					}
+					var cls []*sched.Client
+					for i := 0; i < 2; i++ {
+						if cl, o := sched.Dial(":6379"); o.Status == "ok" {
+							cl.Do("PING")
+							cls = append(cls, cl)
+						}
+					}
+					for i, cl := range cls {
+						i, cl := i, cl
+						vrt.Go(fmt.Sprintf("client%d", i), func() {
+							var r, r2 sched.Outcome
+							if i == 0 {
+								r = cl.Do("CONFIG", "SET", "tls-cert-file", kit.ServerCert)
+								r2 = cl.Do("CONFIG", "SET", "tls-key-file", kit.ServerKey)
+							} else {
+								r = cl.Do("CONFIG", "SET", "tls-ca-cert-file", kit.CAFile, "tls-port", "6380")
+								r2 = cl.Do("CONFIG", "GET", "tls-cert-file", "port")
+							}
+							outcomes = append(outcomes, r.Status+r2.Status)
+						})
+					}
+					outcomes = append(outcomes, fmt.Sprint("call:", call(s)))
+				},
+				Verdict: c14Verdict(func() string { sort.Strings(outcomes); return strings.Join(outcomes, ",") }),
+			}
+		}}
+	}
+	out = append(out, startParamsVsReopen("S18-config-set-start-parameters-vs-restart", func(s *redis.Server) error { return s.Restart() }),
+		startParamsVsReopen("S19-config-set-start-parameters-vs-stop-start", func(s *redis.Server) error {
+			if err := s.Stop(); err != nil {
+				return err
+			}
+			return s.Start()
+		}))
 	// S14/S15: Stop / Restart sweeping three idle connections, two of which report an error
 	// from Close (whatever the sweep does with the errors, in whatever goroutines)
 	failingClose := func(name string, call func(s *redis.Server) error) c14Scenario {
@@ -594,7 +648,7 @@ func init() {
 	fw.Register(&fw.Prop{
 		ID:    "C14",
 		Level: "model_checking",
-		Rule:  "19 scenarios on the real Start/accept loop/connection goroutines over the in-memory network: two clients doing CONFIG SET/GET; a client connecting while another CONFIG SETs requirepass; two clients running a command of every executor family (and AUTH sequences) against a race-free double; two clients connecting/disconnecting while the harness enumerates the registry (Conns, ConnByUUID, connection accessors); Stop concurrent with clients mid-command and connecting; Restart with an idle client; Restart after SetRequirePass; two TLS clients (real handshake) doing CONFIG SET while Stop runs; two application goroutines enumerating the registry at once right after a connect, with a further client connecting or with Stop running; two connected clients sending AUTH (one- and two-argument) and SELECT while Stop / Restart closes their connections; an application goroutine calling the configuration API (SetConfig, AppendConfig, RemoveConfig, ConfigString, SetRequirePass, RemoveRequirePass, SetTLSPort, ...) while two clients read the configuration literally and through patterns, write it, connect and authenticate; Stop / Restart sweeping connections whose Close reports an error; an application goroutine reading every accessor of every registered connection while TLS clients handshake; two clients on the same keys of the bundled example store, one with flat and one with nested command arrays. A handler that writes one shared word on every call stands for any application store relying on one command at a time: handler calls not ordered by happens-before are reported. Local variables shared with a goroutine through a closure started by a go statement are instrumented like fields. Every schedule within deviation bound 2 (thorough 3) is executed with every field access of the instrumented framework feeding a vector-clock happens-before oracle (edges: go, mutex/RWMutex release-acquire, sync.Map per key, connection write->read, dial->accept, close->EOF/error; scheduler hand-offs are NOT edges); locations found racy become scheduling points and the exploration is repeated until the racy set is stable. A race is an unordered pair of access sites on one location with at least one write; a WaitGroup's first increment from zero and a blocking Wait count as read and write of one location, as in the Go race detector.",
+		Rule:  "21 scenarios on the real Start/accept loop/connection goroutines over the in-memory network: two clients doing CONFIG SET/GET; a client connecting while another CONFIG SETs requirepass; two clients running a command of every executor family (and AUTH sequences) against a race-free double; two clients connecting/disconnecting while the harness enumerates the registry (Conns, ConnByUUID, connection accessors); Stop concurrent with clients mid-command and connecting; Restart with an idle client; Restart after SetRequirePass; two TLS clients (real handshake) doing CONFIG SET while Stop runs; two application goroutines enumerating the registry at once right after a connect, with a further client connecting or with Stop running; two connected clients sending AUTH (one- and two-argument) and SELECT while Stop / Restart closes their connections; an application goroutine calling the configuration API (SetConfig, AppendConfig, RemoveConfig, ConfigString, SetRequirePass, RemoveRequirePass, SetTLSPort, ...) while two clients read the configuration literally and through patterns, write it, connect and authenticate; Stop / Restart sweeping connections whose Close reports an error; two connected clients CONFIG SETting the parameters Start reads (tls-cert-file, tls-key-file, tls-ca-cert-file, tls-port, to their current values) while Restart or Stop+Start reopens the listeners; an application goroutine reading every accessor of every registered connection while TLS clients handshake; two clients on the same keys of the bundled example store, one with flat and one with nested command arrays. A handler that writes one shared word on every call stands for any application store relying on one command at a time: handler calls not ordered by happens-before are reported. Local variables shared with a goroutine through a closure started by a go statement are instrumented like fields. Every schedule within deviation bound 2 (thorough 3) is executed with every field access of the instrumented framework feeding a vector-clock happens-before oracle (edges: go, mutex/RWMutex release-acquire, sync.Map per key, connection write->read, dial->accept, close->EOF/error; scheduler hand-offs are NOT edges); locations found racy become scheduling points and the exploration is repeated until the racy set is stable. A race is an unordered pair of access sites on one location with at least one write; a WaitGroup's first increment from zero and a blocking Wait count as read and write of one location, as in the Go race detector.",
 		Assumptions: []string{
 			"setters documented as pre-start configuration (SetTracer, SetCommandHandler, RegisterExexutor, SetPort) are called before Start only; SetRequirePass before Restart is called by the lifecycle thread between Stop-free calls as the repository's own tests do",
 			"the race-detector stress with 2..32 clients is replaced by exhaustive small scenarios: a race is a pair of accesses, two contending threads exhibit it",
